@@ -92,6 +92,14 @@ var HTMLOptionalEndTag = set(`
  html head body li dt dd p rt rp optgroup option colgroup caption thead tbody tfoot tr td th
  rb rtc`)
 
+// … and of those, the elements after whose end tag a conforming document has nothing but an element
+// that closes them anyway, or the end of the parent (§4.9, §4.4.5-4.4.11, §4.10.10: the content models
+// of table, thead/tbody/tfoot, tr, ul/ol/menu, dl, select/optgroup contain no text and no other flow
+// content) — only for these may the end tag be dropped without looking at what follows. Not among them:
+// p (flow content follows), rt/rp/rb/rtc (ruby holds base text between the annotations:
+// `<ruby>漢<rt>kan</rt>字<rt>ji</rt></ruby>`), html/head/body (comments, white space).
+var HTMLEndTagOmissibleBlind = set(`li dt dd optgroup option colgroup caption thead tbody tfoot tr td th`)
+
 // … whose start AND end tag may be omitted when the element has no attributes.
 var HTMLOptionalBothTags = set(`html head body colgroup tbody`)
 
